@@ -297,7 +297,7 @@ theorem invD_finishCall (g : Cfg) (r : S × Ret) (hi : InvD g r.1) : InvD g (fin
   split
   · simp only
     split
-    · exact hi
+    · exact hi.of_D (s := r.1) rfl
     · exact hi.of_D (D_cModWrite g _)
   · exact invD_closeNow g _ hi
 
@@ -448,7 +448,7 @@ theorem invD_flushLoop (g : Cfg) : ∀ (fuel : Nat) (s : S) (ks : List KAns),
     intro s ks hi hc hf
     unfold flushLoop
     split
-    · exact hi.of_D (D_cResetRead g s)
+    · exact (hi.of_D (s := s) (t := stopTimer s) rfl).of_D (D_cResetRead g _)
     · -- head is a buffer
       rename_i d off tl hwl
       have hpos : off < d.length := hi.pos (Item.buf d off) (by rw [hwl]; simp)
@@ -602,6 +602,9 @@ theorem invD_registerDial (g : Cfg) (s : S) (hi : InvD g s) : InvD g (registerDi
   · exact hi
   · exact (InvD.of_D (s := s) (t := { s with isWAdded := true, connecting := true }) rfl hi).of_D (D_pAddReadWrite g _)
 
+theorem invD_closeWE (g : Cfg) (s : S) (h : InvD g s) : InvD g (closeWE s) :=
+  invD_closeNow g _ (h.of_D (s := s) (t := stopTimer s) rfl)
+
 /-- updates of poller/kernel-side fields keep the data invariant -/
 theorem InvD.same {g : Cfg} {s t : S} (hi : InvD g s) (h1 : t.closed = s.closed) (h2 : t.hung = s.hung)
     (h3 : t.wl = s.wl) (h4 : t.left = s.left) (h5 : t.wire = s.wire) (h6 : t.accepted = s.accepted) : InvD g t :=
@@ -645,14 +648,34 @@ theorem invD_evEnd (g : Cfg) (s : S) (hi : InvD g s) : InvD g (evEnd g s) := by
     split
     · split
       · exact h1.same rfl rfl rfl rfl rfl rfl
-      · exact invD_closeNow g _ (h1.same rfl rfl rfl rfl rfl rfl)
+      · exact invD_closeWE g _ (h1.same rfl rfl rfl rfl rfl rfl)
     · exact h1
 
 theorem invD_close (g : Cfg) (s : S) (hi : InvD g s) : InvD g (close s) := by
   unfold close
   split
   · exact hi
-  · exact invD_closeNow g s hi
+  · exact invD_closeWE g s hi
+
+theorem invD_setWriteDeadline (g : Cfg) (s : S) (z : Bool) (hi : InvD g s) : InvD g (setWriteDeadline s z) := by
+  unfold setWriteDeadline
+  split
+  · exact hi
+  · exact hi.same rfl rfl rfl rfl rfl rfl
+
+theorem invD_timerExpire (g : Cfg) (s : S) (hi : InvD g s) : InvD g (timerExpire s) := by
+  unfold timerExpire
+  split
+  · exact hi.same rfl rfl rfl rfl rfl rfl
+  · exact hi
+
+theorem invD_timerFire (g : Cfg) (s : S) (hi : InvD g s) : InvD g (timerFire s) := by
+  unfold timerFire
+  split
+  · exact hi
+  · split
+    · exact hi.same rfl rfl rfl rfl rfl rfl
+    · exact invD_closeWE g _ (hi.same rfl rfl rfl rfl rfl rfl)
 
 theorem invD_step (g : Cfg) (s : S) (op : Op) (hi : InvD g s) : InvD g (step g s op) := by
   cases op with
@@ -664,6 +687,9 @@ theorem invD_step (g : Cfg) (s : S) (op : Op) (hi : InvD g s) : InvD g (step g s
   | evTake o i e ks => exact invD_evTake g s o i e ks hi
   | evEnd => exact invD_evEnd g s hi
   | close => exact invD_close g s hi
+  | setWriteDeadline z => exact invD_setWriteDeadline g s z hi
+  | timerExpire => exact invD_timerExpire g s hi
+  | timerFire => exact invD_timerFire g s hi
 
 theorem invD_run (g : Cfg) (ops : List Op) : ∀ (s : S), InvD g s → InvD g (run g s ops) := by
   induction ops with
